@@ -40,6 +40,51 @@ def check(run):
     _stacked(run, prog)
     from ..cachekey import check_caches
     check_caches(run, [m for k, m in prog.modules.items() if k.startswith('cherab.tools.inversions')], 'C11-K')
+    _inputs_kept(run, prog)
+
+
+def _inputs_kept(run, prog):
+    """R5: the solvers do not change the matrix / vectors they are given, and the stacked system is not typed after an input (for an
+    integer geometry matrix alpha * L would be truncated, and the returned vector would not minimise the documented functional)."""
+    from ._purity import mutations, typed_after_input
+    run.describe('C11-R5', 'inputs are not modified in place; the stacked system is not typed after an input array')
+    for k, mi in sorted(prog.modules.items()):
+        if not k.startswith('cherab.tools.inversions.') or k.split('.')[-1] not in ('sart', 'nnls', 'lstsq'):
+            continue
+        for name, fn in sorted(mi.functions.items()):
+            if name.startswith('_'):
+                continue
+            run.subject('C11-R5')
+            bad = mutations(fn)
+            # the iterate buffer is the caller's initial guess when an array is passed (an optional argument): the in-place iteration
+            # overwrites it. The property speaks of the returned iterate only, so this is a note, not a violation (DESIGN 10.8)
+            from ._purity import alias_roots, optional_params
+            roots, opt = alias_roots(fn), optional_params(fn)
+            kept = []
+            for st, text in bad:
+                tg = st.targets[0] if isinstance(st, ast.Assign) else getattr(st, 'target', None)
+                b0 = tg
+                while isinstance(b0, ast.Subscript):
+                    b0 = b0.value
+                rs = roots.get(b0.id, set()) if isinstance(b0, ast.Name) else set()
+                if rs and rs <= opt:
+                    run.notes.append('NOTE: C11-R5 %s overwrites its optional argument %s in place (%s); the property speaks of the returned iterate only'
+                                     % (name, sorted(rs), text))
+                else:
+                    kept.append((st, text))
+            bad = kept
+            typed = typed_after_input(fn)
+            for st, text in bad:
+                run.fail('C11-R5', '%s|%s|mutates-argument' % (mi.name, name), mi.relpath, st.lineno,
+                         "%s changes data it was given in place (%s): the caller's matrix / vector is overwritten" % (name, text))
+            for st, buf, model, s2 in typed:
+                run.fail('C11-R5', '%s|%s|typed-after-input:%s' % (mi.name, name, buf), mi.relpath, st.lineno,
+                         "%s allocates '%s' with the dtype of its argument '%s' (%s) and then stores other values in it (%s): for an integer-typed "
+                         "%s they are truncated, so the solved system is not [W; alpha L] x = [b; 0]"
+                         % (name, buf, model, norm(st.value)[:50], norm(s2)[:50], model))
+            if not bad and not typed:
+                run.ok('C11-R5', name, 'arguments untouched, buffers of default floating type', sample=False)
+    run.floor('C11-R5', 4)
 
 
 def _roles(fn):
@@ -768,6 +813,9 @@ def _stacked(run, prog):
 
 
 MUTANTS = [
+    dict(name='stacked-system-typed-after-the-geometry-matrix', file='cherab/tools/inversions/nnls.py', find="    c_matrix = np.zeros((m+n, n))\n", replace="    c_matrix = np.zeros_like(w_matrix, shape=(m+n, n))\n", expect='C11-R5'),
+    dict(name='ray-sums-memoised-by-identity', file='cherab/tools/inversions/sart.pyx',
+         find="    cell_ray_densities = np.sum(geometry_matrix, axis=0)\n", replace="    global _LAST_G, _LAST_RHO\n    if geometry_matrix is not _LAST_G:\n        _LAST_RHO = np.sum(geometry_matrix, axis=0)\n        _LAST_G = geometry_matrix\n    cell_ray_densities = _LAST_RHO\n", occurrence=0, of=2, expect='C11-K'),
     dict(name='lstsq-tikhonov-block-transposed', file=LSTSQ, find="    c_matrix = np.zeros((m+n, n))\n    c_matrix[0:m, :] = w_matrix[:, :]\n    c_matrix[m:, :] = tikhonov_matrix[:, :]\n", replace="    c_matrix = np.concatenate((w_matrix.T, tikhonov_matrix), axis=1).T\n", expect='C11-R4'),
     dict(name='nnls-drops-unobserved-rows', file=NNLS, find="    m, n = w_matrix.shape\n", replace="    observed = np.any(w_matrix != 0, axis=1)\n    w_matrix = w_matrix[observed, :]\n    b_vector = b_vector[observed]\n    m, n = w_matrix.shape\n", expect='C11-R4'),
     dict(name='clip-removed', file=SART, find="            if x_j_new < 0:\n                x_j_new = 0.0\n", replace="", occurrence=0, of=2, expect='C11-R1'),
